@@ -209,12 +209,12 @@ def work(chunk, points=None, tier='quick', quick_slice=0):
             err = abs(v - exact)
             ratio = err / allow_unit if allow_unit > 0 else float('inf')
             if CALIBRATE:
-                acc.maxi('E/%s/%d' % (method, n), (ratio if math.isfinite(ratio) else 1e300,
+                acc.maxi('%s/%s/%d' % ('E' if gen[0] == 'default' else 'EU', method, n), (ratio if math.isfinite(ratio) else 1e300,
                                                    '%s @%r order=%d gen=%r %s val=%r exact=%r S=%.3g fac=%.3g R=%.3g hmax=%.3g' % (
                                                        show, comb.x, order, gen, form, v, exact, t['S'], t['fac'], comb.R_an, t['hmax'])))
                 acc.case(case, nontrivial=True, cell=cell)
                 return
-            E = cm.env('E', method, n)
+            E = cm.env('E' if gen[0] == 'default' else 'EU', method, n)
             nontriv = E * allow_unit < abs(exact) / 2
             acc.case(case, nontrivial=nontriv, cell=[cell, 'outer/' + str(P.outer_op(spec[1] if spec[0] == 'real' else spec[2])),
                                                      'kind/' + spec[0]],
@@ -222,7 +222,7 @@ def work(chunk, points=None, tier='quick', quick_slice=0):
             acc.maxi('worst_ratio/%s/%d' % (method, n), ratio if math.isfinite(ratio) else 1e300)
             if not (err <= E * allow_unit):
                 kind = 'nonfinite' if not math.isfinite(err) else 'envelope'
-                acc.violation('C01:%s:%s:n=%d' % (method, kind, n), jc,
+                acc.violation('C01:%s:%s:n=%d%s' % (method, kind, n, '' if gen[0] == 'default' else ':gen=' + gen[0]), jc,
                               'Derivative(%s, n=%d, method=%s, order=%d, gen=%r)(%r) = %r, exact %r: error %.3g '
                               '> E=%g x S_n=%.3g x fac=%.3g' % (show, n, method, order, gen, comb.x, v, exact, err,
                                                                  E, t['S'], t['fac']), rank)
@@ -277,7 +277,7 @@ def replay(case):
     if n == 0:
         return True, 'n=0 value %r' % v
     err = abs(v - t['exact'])
-    E = cm.env('E', method, n)
+    E = cm.env('E' if gen[0] == 'default' else 'EU', method, n)
     ok = (not t['classA']) or err <= E * t['S'] * t['fac']
     return ok, ('f=%s x=%r cfg=%r gen=%r: value %r exact %r err %.3g allowance %.3g (E=%g S=%.3g fac=%.3g classA=%r)'
                 % (spec_show(spec), x, cfg, gen, v, t['exact'], err, E * t['S'] * t['fac'], E, t['S'], t['fac'], t['classA']))
